@@ -103,3 +103,70 @@ Proof.
   destruct (shl_spec n ws p Hn Hwf) as (w1 & E1 & _). destruct (shr_spec n ws p Hn Hwf) as (w2 & E2 & _).
   rewrite E1, E2. split; discriminate.
 Qed.
+
+(* ---- queries ---- *)
+From FV Require Import Bits.BitsetQueries Bits.BitsetCount.
+
+Definition valid_query (n : N) (q : bquery) : Prop :=
+  match q with
+  | QTest p | QRefBool p | QRefNot p => p < n
+  | QEq r => wf n r
+  | QAny | QAll | QNone => True
+  end.
+
+Definition spec_query (n : N) (q : bquery) (f : N -> bool) : bool :=
+  match q with
+  | QTest p | QRefBool p => f p
+  | QRefNot p => negb (f p)
+  | QAny => existsb f (indices n)
+  | QAll => forallb f (indices n)
+  | QNone => negb (existsb f (indices n))
+  | QEq r => forallb (fun i => Bool.eqb (f i) (bit r i)) (indices n)
+  end.
+
+Theorem query_spec : forall n ws q, 1 <= n -> wf n ws -> valid_query n q ->
+  query n ws q = Ok (spec_query n q (bit ws)).
+Proof.
+  intros n ws q Hn Hwf Hv. destruct q; cbn [query spec_query valid_query] in *.
+  - now apply (test_spec n).
+  - now apply (test_spec n).
+  - unfold ref_not. now rewrite (test_spec n) by assumption.
+  - now apply bany_spec.
+  - now apply ball_spec.
+  - now apply bnone_spec.
+  - now apply beq_spec.
+Qed.
+
+Local Open Scope N_scope.
+Lemma bitset_refines_bits_all : forall n : N, 1 <= n ->
+  (* constructors *)
+  (wf n (ctor_default n) /\ forall i, bit (ctor_default n) i = false) /\
+  (forall v, v < 2 ^ 64 ->
+     exists ws, ctor_val n v = Ok ws /\ wf n ws /\ forall i, i < n -> bit ws i = N.testbit v i) /\
+  (* every mutating operation, incl. the proxy reference and shifts by ANY amount *)
+  (forall ws o, wf n ws -> valid_op n o ->
+     exists ws', apply_op n ws o = Ok ws' /\ forall i, i < n -> bit ws' i = spec_op n o (bit ws) i) /\
+  (* shifts by p >= N give the empty set *)
+  (forall ws p, wf n ws -> n <= p ->
+     exists wl wr, apply_op n ws (BShl p) = Ok wl /\ apply_op n ws (BShr p) = Ok wr /\
+                   forall i, i < n -> bit wl i = false /\ bit wr i = false) /\
+  (* test, bool(ref), ~ref, any, all, none, == *)
+  (forall ws q, wf n ws -> valid_query n q -> query n ws q = Ok (spec_query n q (bit ws))) /\
+  (* count = number of set bits below N *)
+  (forall ws, wf n ws -> count ws = Ok (count_spec n (bit ws))).
+Proof.
+  intros n Hn. split; [exact (ctor_default_spec n Hn)|]. split; [intros v Hv; exact (ctor_val_spec n v Hn Hv)|].
+  split.
+  { intros ws o Hwf Hv. destruct (apply_op_spec n ws o Hn Hwf Hv) as (ws' & E & _ & B). eauto. }
+  split.
+  { intros ws p Hwf Hp.
+    destruct (apply_op_spec n ws (BShl p) Hn Hwf I) as (wl & El & _ & Bl).
+    destruct (apply_op_spec n ws (BShr p) Hn Hwf I) as (wr & Er & _ & Br).
+    exists wl, wr. split; [exact El|]. split; [exact Er|]. intros i Hi. rewrite Bl, Br by exact Hi.
+    cbn [spec_op]. destruct (N.leb_spec p i); [exfalso; eapply N.lt_irrefl, N.lt_le_trans, N.le_trans; eauto|].
+    destruct (N.ltb_spec (i + p) n) as [H1|H1]; [|split; reflexivity].
+    exfalso. apply (N.lt_irrefl n). eapply N.le_lt_trans; [exact Hp|]. eapply N.le_lt_trans; [|exact H1].
+    rewrite N.add_comm. apply N.le_add_r. }
+  split; [intros ws q Hwf Hv; exact (query_spec n ws q Hn Hwf Hv)|].
+  intros ws Hwf. exact (count_spec_ok n ws Hn Hwf).
+Qed.
